@@ -75,7 +75,7 @@ scheme  := "git" | "ssh" | "rsync" | "file" | "http" | "https"
 user, host := uchar+        uchar := [A-Za-z0-9._-]        port := [0-9]+
 path    := ("/" | ":") [ seg ("/" seg)* ["/"] ]           seg := [A-Za-z0-9._~-]+
 suffix  := "@" rev ["#subdirectory=" subdir] | "#subdirectory=" subdir
-rev     := [-A-Za-z0-9._/]+                                 subdir := [-A-Za-z0-9_/]+  (SUBDIR of git.py: no ".")
+rev     := [-A-Za-z0-9._/]+                                 subdir := [-A-Za-z0-9_/.]+ (SUBDIR of git.py; `.` only when the source's class has it: Gen.gitSubdirAllowsDot)
 ```
 On these texts the first two regular expressions of `PATTERNS` (URL form) resp. the fourth (scp-like form) match
 and bind the groups as computed below; this is a correspondence obligation of the check (stream `giturl`). -/
@@ -224,13 +224,13 @@ def lstripColonSlash : List Char → List Char
   | c :: cs => if c == ':' || c == '/' then lstripColonSlash cs else c :: cs
   | [] => []
 
-/-- `ParsedUrl.url` (an absent `resource` is formatted as the text `None`, as in the code) -/
+/-- `ParsedUrl.url` (`{self.resource or ''}`: an absent host, as in `file:///path`, prints as nothing) -/
 def GitUrl.url (u : GitUrl) : String :=
   let protocol := if truthy u.protocol then u.protocol.getD "" ++ "://" else ""
   let user := if truthy u.user then u.user.getD "" ++ "@" else ""
   let port := if truthy u.port then ":" ++ u.port.getD "" else ""
   let path := "/" ++ String.ofList (lstripColonSlash ((u.pathname.getD "").toList))
-  protocol ++ user ++ (match u.resource with | some r => r | none => "None") ++ port ++ path
+  protocol ++ user ++ (if truthy u.resource then u.resource.getD "" else "") ++ port ++ path
 
 /-! ### `specification.py` -/
 
@@ -298,7 +298,11 @@ def Spec.beq (a b : Spec) : Bool := a.isSamePackageAs b
 
 /-- what `__hash__` feeds to `hash` (xor of the hashes of these values) -/
 def Spec.hashKey (s : Spec) : String × Option (String × Option String × Option String) :=
-  (s.completeName, if truthy s.sourceType then some (s.sourceType.getD "", s.sourceUrl, s.sourceSubdirectory) else none)
+  (s.completeName,
+   if truthy s.sourceType then
+     some (s.sourceType.getD "", (if truthy s.sourceUrl then s.sourceUrl else none),
+           (if truthy s.sourceSubdirectory then s.sourceSubdirectory else none))   -- `hash(x or None)`
+   else none)
 
 /-! ### dependency objects -/
 
@@ -616,12 +620,9 @@ def fromReq (req : Requirement) : PyM Dep := do
       else .error .unmodelled                                 -- local path not using the file scheme
     | none =>
       -- `cached_is_dir(p) and (os.path.sep in name or name.startswith("."))` is false for a NAME token
-      if isArchiveName name.toList then
-        -- the name is taken for a local archive: a `file:` link is built, then `url_to_path(req.url)` is called
-        -- with `req.url = None`
-        if extOf name.toList == ".whl".toList && (wheelNameVer name.toList).isNone then .error .value
-        else .error .attribute
-      else mkRegistry name req.constraint req.extras)
+      -- `is_archive_file(p) and p.is_file()`: in the model's world no file of that name exists in the working
+      -- directory (a file-system probe; such a file would make it a FileDependency, outside the model)
+      mkRegistry name req.constraint req.extras)
   match req.marker with
   | some m => dep.setMarker m
   | none => pure dep
